@@ -199,8 +199,8 @@ func init() {
 		Floors: []report.Floor{
 			{Rule: "buf-readonly", What: "functions", Min: 400},
 			{Rule: "cb-guard", What: "calls", Min: 4},
-			{Rule: "idx-guard", What: "sites", Min: 1700},
-			{Rule: "progress", What: "token-steps", Min: 270},
+			{Rule: "idx-guard", What: "sites", Min: 1200},
+			{Rule: "progress", What: "token-steps", Min: 200},
 			{Rule: "pred-pure", What: "predicates", Min: 5},
 			{Rule: "tables-sync", What: "skeleton-funcs", Min: 16},
 			{Rule: "assert-safe", What: "assertions", Min: 230},
